@@ -48,7 +48,17 @@ def run_prop(pid, tier, seed, repo=None, quiet=False):
                 print("  " + pr)
             return 2
         ctx.notes.append("positive fixtures: rules %s fired on the violating fixture crate and stayed silent on the discharged twins" % sorted(fx))
-    mod.run(ctx, facts)
+    try:
+        mod.run(ctx, facts)
+    except engine.EnvError:
+        raise
+    except Exception as ex:  # a construct the rules were not built for: fail closed, as a reported violation rather than a traceback
+        import traceback
+        tb = traceback.format_exc().strip().splitlines()
+        r = "R-engine"
+        ctx.rule(r, "the rules must be able to analyse the tree")
+        ctx.ob(r, ("rule-engine", type(ex).__name__), False,
+               "the rule engine could not analyse this tree (%s: %s; %s) -- treated as a violation: the property is not established" % (type(ex).__name__, str(ex)[:120], tb[-3].strip()[:160] if len(tb) >= 3 else ""))
     meta = dict(mod.META)
     meta["cmd"] = "./check %s --tier %s" % (pid, tier)
     violations, lines = ctx.finish(meta)
